@@ -587,6 +587,8 @@ type family struct {
 	allPerms int // streams up to this length get every id permutation (specs containing _id)
 	// long streams in the quick tier: one non-monotone id assignment and two After sizes only
 	lean bool
+	// quick tier: streams of this length evaluate every second specification (rotated over the streams)
+	rotateAt int
 }
 
 func sc(desc bool) rkey { return rkey{by: "score", desc: desc} }
@@ -649,7 +651,7 @@ func families(r *mc.Run, capv int) []family {
 	long := family{name: "long-binary", alpha: alphaScoreKey("a", "b")[1:3], minLen: 12, maxLen: 12, specs: specsLong()}
 	if r.Quick() {
 		long.lean = true
-		long.specs = [][]rkey{{sc(true)}, {sc(false)}, {fk("k", false, false)}, {sc(true), id(true)}, {fk("k", false, false), id(true)}, {sc(false), fk("k", true, false)}}
+		long.specs = [][]rkey{{sc(true)}, {sc(false)}, {fk("k", false, false)}, {sc(true), id(true)}, {sc(false), fk("k", true, false)}}
 		if capv < 1000 {
 			return []family{
 				{name: "score×key", alpha: alphaScoreKey("a", "b", "_"), maxLen: 3, specs: specsSingle(), allPerms: 3},
@@ -660,7 +662,7 @@ func families(r *mc.Run, capv int) []family {
 		long.maxLen = 14
 	}
 	return []family{
-		{name: "score×key", alpha: alphaScoreKey("a", "b", "_"), maxLen: mc.Pick(r, 4, 5), specs: specsSingle(), allPerms: mc.Pick(r, 3, 4)},
+		{name: "score×key", alpha: alphaScoreKey("a", "b", "_"), maxLen: mc.Pick(r, 4, 5), specs: specsSingle(), allPerms: mc.Pick(r, 3, 4), rotateAt: mc.Pick(r, 4, 0)},
 		{name: "k×n", alpha: alphaKN(), maxLen: mc.Pick(r, 3, 4), specs: specsTwoField(), allPerms: mc.Pick(r, 3, 4)},
 		{name: "score×multikey", alpha: alphaScoreKey("a", "b", "_", "ca"), maxLen: mc.Pick(r, 3, 4), specs: specsMulti(), allPerms: 3},
 		long,
@@ -804,10 +806,13 @@ func streamReplay(docs []*rdoc) []map[string]any {
 }
 
 // evalStream runs every specification of the family on one stream (one id scheme).
-func evalStream(r *mc.Run, fam *family, docs []*rdoc, identity bool, capv int, a *acc) {
+func evalStream(r *mc.Run, fam *family, docs []*rdoc, si int, identity bool, capv int, a *acc) {
 	n := len(docs)
-	for _, keys := range fam.specs {
+	for ki, keys := range fam.specs {
 		if !identity && !specHasID(keys) {
+			continue
+		}
+		if fam.rotateAt > 0 && n == fam.rotateAt && (ki+si)%2 != 0 {
 			continue
 		}
 		exp := refSort(docs, keys)
@@ -1018,7 +1023,7 @@ func partA(r *mc.Run, fams []family, capv int) {
 				for p := range syms {
 					docs[p] = syms[p].doc(string(rune('a' + perm[p])))
 				}
-				evalStream(r, j.fam, docs, isIdentity(perm), capv, a)
+				evalStream(r, j.fam, docs, si, isIdentity(perm), capv, a)
 			}
 		}
 	})
